@@ -107,6 +107,25 @@ Inductive alloc_answer := AOk | AFail (e : Z).
 
 Definition stack_buf_size : nat := 512.
 
+(* zix_copy_file from the kernel copy attempt to the end (both descriptors open) *)
+Definition copy_body (w : world) (size : nat) (b1 b2 : Z) (al : alloc_answer) : status * world :=
+  let dst_fd := Some FDst in
+  let src_fd := Some FSrc in
+  let (st, w) := zix_copy_file_range w size in
+  if negb (status_eqb st NOT_SUPPORTED) then finish_copy w dst_fd src_fd st else
+  let w := k_fadvise w 0 in
+  let w := k_fadvise w 1 in
+  let block_size := get_block_size b1 b2 in
+  let w := match al with
+           | AOk => log w KAlloc block_size 1
+           | AFail e => log (if e =? 0 then w else set_errno w e) KAlloc block_size 0
+           end in
+  let buffer_size := match al with AOk => Z.to_nat block_size | AFail _ => stack_buf_size end in
+  let w := set_errno w 0 in                      (* a failed allocation may have set errno *)
+  let (st, w) := copy_blocks (S size) w buffer_size in
+  let w := log w KFree (match al with AOk => 1 | AFail _ => 0 end) 0 in
+  finish_copy w dst_fd src_fd st.
+
 Definition zix_copy_file (w : world) (overwrite : bool) (b1 b2 : Z) (al : alloc_answer)
   : status * world :=
   (* open the source and get its status *)
@@ -127,20 +146,7 @@ Definition zix_copy_file (w : world) (overwrite : bool) (b1 b2 : Z) (al : alloc_
       let dst_fd := if dst_ok then Some FDst else None in
       let (dfst_ok, w) := if dst_ok then k_fstat w 1 else (false, w) in
       if negb (dst_ok && dfst_ok) then finish_copy w dst_fd src_fd (zix_errno_status (w_errno w)) else
-      let (st, w) := zix_copy_file_range w size in
-      if negb (status_eqb st NOT_SUPPORTED) then finish_copy w dst_fd src_fd st else
-      let w := k_fadvise w 0 in
-      let w := k_fadvise w 1 in
-      let block_size := get_block_size b1 b2 in
-      let w := match al with
-               | AOk => log w KAlloc block_size 1
-               | AFail e => log (if e =? 0 then w else set_errno w e) KAlloc block_size 0
-               end in
-      let buffer_size := match al with AOk => Z.to_nat block_size | AFail _ => stack_buf_size end in
-      let w := set_errno w 0 in                      (* a failed allocation may have set errno *)
-      let (st, w) := copy_blocks (S size) w buffer_size in
-      let w := log w KFree (match al with AOk => 1 | AFail _ => 0 end) 0 in
-      finish_copy w dst_fd src_fd st
+      copy_body w size b1 b2 al
     end
   | _ => finish_copy w None src_fd BAD_ARG
   end.
